@@ -13,9 +13,11 @@ import (
 	"hash/fnv"
 	"os"
 	"path/filepath"
+	"runtime/debug"
 	"sort"
 	"strconv"
 	"sync"
+	"time"
 )
 
 // ---------------------------------------------------------------- environment
@@ -106,6 +108,12 @@ type Recorder struct {
 }
 
 func NewRecorder(prop string) *Recorder {
+	r := newRecorder(prop)
+	current = r
+	return r
+}
+
+func newRecorder(prop string) *Recorder {
 	return &Recorder{Prop: prop, env: GetEnv(), hashes: map[uint64]struct{}{}, hashCap: 4_000_000,
 		classes: map[string]int64{}, sampleSeen: map[string]int{}, known: map[string]int64{}, notes: map[string]string{}}
 }
@@ -322,10 +330,29 @@ func (r *Recorder) Report(t TB, kind string, v *Violation) {
 func (r *Recorder) WriteReplay(kind string, v *Violation) string {
 	dir := filepath.Join(r.env.Root, "replays", r.Prop)
 	_ = os.MkdirAll(dir, 0o755)
-	path := filepath.Join(dir, fmt.Sprintf("%s-seed%d-s%02d.json", kind, r.env.Seed, r.env.Shard))
+	path := filepath.Join(dir, fmt.Sprintf("%s-%s-seed%d-s%02d.json", kind, keyHead(v.Key), r.env.Seed, r.env.Shard))
 	b, _ := json.MarshalIndent(replayFile{Property: r.Prop, Kind: kind, Key: v.Key, Message: v.Msg, Case: v.Case}, "", " ")
 	_ = os.WriteFile(path, b, 0o644)
 	return path
+}
+
+// keyHead is the first component of a violation key, made file-name safe. It
+// stays constant while one failing case shrinks, and differs between the
+// sub-checks of a package, so concurrent findings do not overwrite each other.
+func keyHead(k string) string {
+	out := []byte{}
+	for i := 0; i < len(k) && k[i] != '/' && len(out) < 48; i++ {
+		c := k[i]
+		if c >= 'a' && c <= 'z' || c >= 'A' && c <= 'Z' || c >= '0' && c <= '9' || c == '.' || c == '_' {
+			out = append(out, c)
+		} else {
+			out = append(out, '_')
+		}
+	}
+	if len(out) == 0 {
+		return "case"
+	}
+	return string(out)
 }
 
 // LoadReplay reads a replay file and returns its kind and raw case.
@@ -426,4 +453,77 @@ func UnHex(s string) []byte {
 		b[i] = v
 	}
 	return b
+}
+
+// RunRegress re-evaluates every saved case under /verif/regress/<prop>/ (the
+// shrunk reproductions of earlier findings, fixed or open) through the
+// registered oracles: the seconds-long replay tier that bypasses the generators.
+func (r *Recorder) RunRegress(t TBLog, reg Registry) {
+	if r.env.Shard != 0 {
+		return
+	}
+	files, _ := filepath.Glob(filepath.Join(r.env.Root, "regress", r.Prop, "*.json"))
+	sort.Strings(files)
+	for _, f := range files {
+		kind, raw, err := LoadReplay(f)
+		if err != nil {
+			t.Fatalf("cannot load regress case %s: %v", f, err)
+		}
+		fn, ok := reg[kind]
+		if !ok {
+			t.Fatalf("regress case %s has unknown kind %q", f, kind)
+		}
+		r.Eval()
+		r.Class("regress_cases")
+		r.NonTrivial("regress", filepath.Base(f))
+		r.Report(t, kind, fn(raw))
+	}
+}
+
+// ---------------------------------------------------------------- panic capture and hang watchdog
+
+var current *Recorder // the package's recorder (set by NewRecorder)
+
+// HangLimit is the wall-clock limit for one guarded library call. Legitimate
+// calls on <= 64 KiB inputs finish in microseconds to milliseconds.
+var HangLimit = 10 * time.Second
+
+// HangExit is the distinctive exit status of a process whose watchdog fired.
+const HangExit = 97
+
+// Guarded runs one library call under recover and under the hang watchdog.
+// A panic is returned as text (with the stack). If the call does not return
+// within HangLimit the case is written as a replay file, a WATCHDOG-HANG line
+// is printed and the process exits with HangExit (a spinning goroutine cannot
+// be stopped in Go); the driver then re-confirms the case in a fresh process
+// before it counts as a violation.
+func Guarded(kind, key string, c func() any, f func()) (panicked string) {
+	r := current
+	tm := time.AfterFunc(HangLimit, func() {
+		var cs any
+		if c != nil {
+			cs = c()
+		}
+		path := "(no recorder)"
+		if r != nil {
+			if IsKnown(r.Prop, key) {
+				// a listed open finding that hangs cannot be tolerated in-process
+				fmt.Printf("WATCHDOG-HANG-KNOWN property=%s key=%s\n", r.Prop, key)
+			}
+			path = r.WriteReplay(kind, &Violation{Key: key, Msg: fmt.Sprintf("call did not return within %v", HangLimit), Case: cs})
+			fmt.Printf("WATCHDOG-HANG property=%s key=%q replay=%s\n", r.Prop, key, path)
+			r.Flush("hang")
+		} else {
+			fmt.Printf("WATCHDOG-HANG replay=%s\n", path)
+		}
+		os.Exit(HangExit)
+	})
+	defer tm.Stop()
+	defer func() {
+		if rec := recover(); rec != nil {
+			panicked = fmt.Sprintf("panic: %v\n%s", rec, debug.Stack())
+		}
+	}()
+	f()
+	return ""
 }
